@@ -132,6 +132,11 @@ class SrtContext:
         if font_color is not None:
           self._paragraphs[-1].append_text(style.FONT_COLOR_TAG_OUT)
 
+    if isinstance(element, (model.Ruby, model.Rbc, model.Rb)):
+      # ruby: only the base text is written, annotations (rt, rtc, rp) have no counterpart
+      for elem in list(element):
+        self.append_element(elem, begin, end)
+
     if isinstance(element, model.Br):
       self._paragraphs[-1].append_text("\n")
 
